@@ -35,6 +35,8 @@ def lex_of(doc_text):
         return t
     if re.search(r"\w\.\w", t.strip('"')) and not re.fullmatch(r"-?[\d.e+-]+", t):
         return "dq_dotted" if t.startswith('"') else "bare_dotted"
+    if t.strip('"') in ("path", "list", "true"):
+        return "dq_keyword" if t.startswith('"') else "bare_keyword"
     phrase = bool(re.search(r"[ ;,/~]", t.strip('"')))
     if t.startswith('"') and t.endswith('"'):
         return "dq_phrase" if phrase else "dq_word"
